@@ -241,9 +241,13 @@ where
                     // 5.
                     let v = algo.beta * (u1 / (F::one() - u1)).ln();
                     w = self.a * v.exp();
-                    if !(algo.alpha * ((algo.alpha / (self.b + w)).ln() + v)
-                        - F::from(4.).unwrap().ln()
-                        < z.ln())
+                    // ln(alpha / (b + w)) + v, which tends to ln(alpha / a) when `w` overflows
+                    let t = if w == F::infinity() {
+                        (algo.alpha / self.a).ln()
+                    } else {
+                        (algo.alpha / (self.b + w)).ln() + v
+                    };
+                    if !(algo.alpha * t - F::from(4.).unwrap().ln() < z.ln())
                     {
                         break;
                     };
